@@ -52,29 +52,38 @@ def FlDom (times : List Rat) (rate bin window : Rat) : Prop :=
 instance (times : List Rat) (rate bin window : Rat) : Decidable (FlDom times rate bin window) := by
   unfold FlDom; infer_instance
 
+/-- the float products `spike_times * sample_rate` (ccg.py:117) before `astype` -/
+def prodsFl (rate : Rat) (times : List Rat) : List Rat := times.map fun t => roundDouble (t * rate)
+
 /-- the quantifier of the property ("sample rates for which time*rate is exact"): every FLOAT product
 `time * rate` is a whole number of samples, so that truncation has nothing to cut (spike times on the sample grid
 as far as the float unit is concerned, e.g. `t = fl(T / rate)`).  Used by the correspondence run only, to grade a
 disagreement (on the grid: the property fails; off the grid: the code no longer matches the model). -/
 def timesOnGrid (times : List Rat) (rate : Rat) : Bool :=
-  times.all fun t => (roundDouble (t * rate)).den == 1
+  (prodsFl rate times).all fun x => x.den == 1
 
 /-- bin or window outside `[1e-5, 1e5]` s: the code silently replaces them by the bound -/
 def clipped (bin window : Rat) : Bool :=
   clip bin clipLo clipHi != bin || clip window clipLo clipHi != window
 
-/-- `correlograms(spike_times, spike_clusters, cluster_ids, sample_rate, bin_size, window_size, symmetrize)` with
-the arguments read as doubles.  `none` = an assertion fails or an exception is raised (rate ≤ 0, decreasing
-times, lengths differ, `binsize < 1`, a cluster outside the lookup table, an index out of range). -/
-def correlogramsFl (times : List Rat) (sc : List Int) (ids : Option (List Nat)) (rate bin window : Rat)
-    (sym : Bool) : Option (List (List (List Nat))) :=
+/-- `correlograms` after the three float → integer conversions: the asserts and the loop on the count array, from
+the spike samples, the bin in samples and the number of bins.  `none` = an assertion fails or an exception is raised
+(rate ≤ 0, decreasing times, lengths differ, `binsize < 1`, a cluster outside the lookup table, an index out of range). -/
+def correlogramsOfInts (samples : List Int) (binsize winsize : Int) (times : List Rat) (sc : List Int)
+    (ids : Option (List Nat)) (rate : Rat) (sym : Bool) : Option (List (List (List Nat))) :=
   if ¬ (0 < rate) then none
   else if ¬ (times.zip times.tail).all (fun p => decide (p.1 ≤ p.2)) then none
   else if times.length ≠ sc.length then none
-  else if binsizeOfFl rate bin < 1 then none
+  else if binsize < 1 then none
   else
-    match correlogramsArr (samplesOfFl rate times) sc (idsOr sc ids) (binsizeOfFl rate bin) (winsizeBinsFl window bin) with
+    match correlogramsArr samples sc (idsOr sc ids) binsize winsize with
     | none => none
     | some c => some (if sym then symmetrize c else c)
+
+/-- `correlograms(spike_times, spike_clusters, cluster_ids, sample_rate, bin_size, window_size, symmetrize)` with
+the arguments read as doubles and every float operation rounded (see the header). -/
+def correlogramsFl (times : List Rat) (sc : List Int) (ids : Option (List Nat)) (rate bin window : Rat)
+    (sym : Bool) : Option (List (List (List Nat))) :=
+  correlogramsOfInts (samplesOfFl rate times) (binsizeOfFl rate bin) (winsizeBinsFl window bin) times sc ids rate sym
 
 end PhyVerif.C15
